@@ -80,17 +80,27 @@ def mat_diff(name, got, want, tol=1e-8):
     return None
 
 
-def native_predict(shape, seed, control_none=False, container="set"):
-    """Real process_model vs oracle.  shape = (n, c, k).  Returns list of problems + scenario."""
+def native_predict(shape, seed, control_none=False, container="set", branchy=False):
+    """Real process_model vs oracle.  shape = (n, c, k).  Returns list of problems + scenario.
+    branchy: update expressions with principal-branch folding (asin(sin(a)), atan(tan(b)), sqrt(a**2), acos(cos(a+b))) evaluated at
+    points outside the principal range."""
     import numpy as np
 
     n, c, k = shape
-    sc = scenarios.Scenario(n, c, k, [1], seed=seed)
+    sc = scenarios.Scenario(n, c, k, [1], seed=seed, branchy=branchy)
     try:
         py, ekf = scenarios.build_ekf(sc, container=container)
     except Exception as e:
         return [f"constructing the filter for a valid definition raised {type(e).__name__}: {(str(e).splitlines() or [''])[0]}"], sc
     pt = sc.point(seed)
+    if branchy:
+        # the folded forms have kinks where an argument or a sum of two arguments vanishes: the prediction's Jacobian is only defined
+        # (and the property only speaks) away from them
+        vs = lambda q: [q[x] for x in sc.state + sc.control + sc.calibration]
+        for ps in range(seed, seed + 40):
+            pt = sc.point(ps)
+            if all(a != 0 for a in vs(pt)) and all(a + b != 0 for i, a in enumerate(vs(pt)) for b in vs(pt)[i + 1 :]):
+                break
     if control_none:
         for u in sc.control:
             pt[u] = Fraction(0)
@@ -273,7 +283,7 @@ def native_sequence(seed=0, linear=False, k_edit=3.0, container="set", assumptio
     between calls (caches, remembered thresholds, reused buffers) shows up.  Returns (problems, scenario)."""
     import numpy as np
 
-    sc = scenarios.Scenario(3, 1, 2, [1, 2], seed=seed, linear=linear, assumptions=assumptions, magnitude=magnitude, redundant=redundant)
+    sc = scenarios.Scenario(3, 2, 2, [1, 2], seed=seed, linear=linear, assumptions=assumptions, magnitude=magnitude, redundant=redundant)  # two calibration values (given to the library in reverse name order)
     if scale:
         # very precise sensors on a very small prior (values far below 1e-6): supplied noise must be used as supplied
         sc.sensor_noises = {kx: {r: v * scale for r, v in m.items()} for kx, m in sc.sensor_noises.items()}
@@ -435,3 +445,34 @@ def native_dtypes(seed=0):
         except Exception as e:
             problems.append(f"{tag} inputs: {type(e).__name__}: {(str(e).splitlines() or [''])[0][:160]}")
     return problems, sc
+
+
+def native_disparate_scales(seed=0, k_edit=3.0):
+    """A two-reading sensor whose components live at very different scales (a range in metres next to a phase in micro-radians):
+    S = diag(2e12, 2e-6) is positive definite with condition number 1e18.  The decision is still NIS > k*sqrt(2m)+m with the FULL
+    inverse of S: an outlier in the small-scale component (NIS 5e5) is discarded and leaves the estimate untouched, a reading one
+    standard deviation off in both components (NIS 1) is accepted and changes it.  Returns a list of problems."""
+    import numpy as np
+    import sympy
+
+    from replay import shim
+    from replay.native import repo_import
+
+    py = shim.install()
+    ui = repo_import("formak.ui")
+    dt, a, b = sympy.symbols("dt a b")
+    model = ui.Model(dt=dt, state={a, b}, control=set(), state_model={a: a, b: b})
+    problems = []
+    try:
+        ekf = py.compile_ekf(model, {}, {"pair": {"r_far": a, "r_fine": b}}, {"pair": {"r_far": 1e12, "r_fine": 1e-6}}, config={"innovation_filtering": k_edit})
+        P = np.diag([1e12, 1e-6])
+        bound = k_edit * math.sqrt(4) + 2
+        for label, z, nis, discard in (("outlier in the fine component", (0.0, 1.0), 0.0 / 2e12 + 1.0 / 2e-6, True), ("one sigma off in both components", (math.sqrt(2e12) * math.sqrt(0.5), math.sqrt(2e-6) * math.sqrt(0.5)), 1.0, False), ("outlier in the far component", (1e7, 0.0), 1e14 / 2e12, True)):
+            st, cov = ekf.State(a=0.0, b=0.0), ekf.Covariance.from_data(P.copy())
+            r = ekf.sensor_model(st, cov, sensor_key="pair", sensor_reading=ekf.make_reading("pair", r_far=z[0], r_fine=z[1]))
+            same = np.array_equal(r.state.data, st.data) and np.array_equal(r.covariance.data, P)
+            if same != discard:
+                problems.append(f"S = diag(2e12, 2e-6), {label} (NIS {nis:.6g}, bound {bound}): reading {'discarded' if same else 'accepted'}, the property's decision is {'discard' if discard else 'accept'}")
+    except Exception as e:
+        problems.append(f"sensor with components at scales 1e12 and 1e-6 raised {type(e).__name__}: {(str(e).splitlines() or [''])[0][:160]}")
+    return problems
